@@ -244,7 +244,12 @@ def run(ctx):
                ('time_shift', lambda: pb.time_shift(z, 1.5)), ('time_shift_crop', lambda: pb.time_shift(z, -2.25, crop=True)),
                ('snippet', lambda: pb.snippet(z, 1.5, 4)), ('fast_len', lambda: pb.fast_len(z)), ('concat', lambda: pb.concatenate([z, type(z).like(z, start_time=None)])),
                ('ufunc', lambda: z * 2), ('compute', lambda: z.compute()), ('to_dask', lambda: z.to_dask_array()), ('rechunk', lambda: z.rechunk()),
-               ('persist', lambda: z.to_dask_array().persist())]
+               ('persist', lambda: z.to_dask_array().persist()),
+               # ufuncs whose natural result dtype is NOT one the class admits (real from complex, bool): the result must be cast or refused
+               ('ufunc_abs', lambda: np.abs(z)), ('ufunc_isfinite', lambda: np.isfinite(z)), ('ufunc_equal', lambda: z == z),
+               ('ufunc_not_equal_scalar', lambda: np.not_equal(z, 0)), ('ufunc_abs_dask', lambda: np.abs(z.to_dask_array())),
+               ('ufunc_isfinite_dask', lambda: np.isfinite(z.to_dask_array())), ('ufunc_signbit_or_abs', lambda: np.signbit(z) if not cplx else np.absolute(z)),
+               ('ufunc_modf_or_abs', lambda: np.modf(z)[1] if not cplx else abs(z))]
         if isinstance(z, pb.RadioSignal):
             ops += [('freq_slice', lambda: z[:, : max(1, z.nchan - 1)]), ('concat_freq', lambda: pb.concatenate([z, z], axis='freq') if z.nchan % 2 == 0 or True else z),
                     ('incoherent', lambda: pb.incoherent_dedispersion(z, pb.DM(0.3)))]
